@@ -1423,7 +1423,16 @@ def range_next(ctx, r):
     """<Range<T> as Iterator>::next on the Struct(start, end) in place."""
     start, end = r.fields[0], r.fields[1]
     if r.ty == 'RangeInclusive':
-        raise Unsupported('RangeInclusive iteration')
+        if r.fields[2] is True:
+            return STOP
+        if ctx.branch(ctx.m.int_binop('Lt', start, end)):
+            r.fields[0] = ctx.m.int_binop('Add', start, Int(1, start.ty))
+            return start
+        if ctx.branch(ctx.m.int_binop('Eq', start, end)):
+            r.fields[2] = True
+            return start
+        r.fields[2] = True
+        return STOP
     if ctx.branch(ctx.m.int_binop('Lt', start, end)):
         r.fields[0] = ctx.m.int_binop('Add', start, Int(1, start.ty))
         return start
@@ -1436,3 +1445,60 @@ def range_next_back(ctx, r):
         r.fields[1] = ctx.m.int_binop('Sub', end, Int(1, end.ty))
         return r.fields[1]
     return STOP
+
+
+@model('RangeInclusive::new')
+def _range_inclusive_new(ctx, args, ck):
+    return Struct('RangeInclusive', [args[0], args[1], False], ['start', 'end', 'exhausted'])
+
+
+@model('RangeInclusive::start')
+def _ri_start(ctx, args, ck):
+    return Ref(ctx.m.peel(args[0]).fields, 0)
+
+
+@model('RangeInclusive::end')
+def _ri_end(ctx, args, ck):
+    return Ref(ctx.m.peel(args[0]).fields, 1)
+
+
+@model('RangeInclusive::contains', 'Range::contains')
+def _range_contains(ctx, args, ck):
+    r = ctx.m.peel(args[0])
+    x = ctx.m.peel(args[1])
+    lo = ctx.m.int_binop('Ge', x, r.fields[0])
+    hi = ctx.m.int_binop('Le' if r.ty == 'RangeInclusive' else 'Lt', x, r.fields[1])
+    return ctx.m.conj([lo, hi])
+
+
+@model('Range::is_empty')
+def _range_is_empty(ctx, args, ck):
+    r = ctx.m.peel(args[0])
+    return ctx.m.int_binop('Ge', r.fields[0], r.fields[1])
+
+
+@model('Range::len')
+def _range_len(ctx, args, ck):
+    r = ctx.m.peel(args[0])
+    if ctx.branch(ctx.m.int_binop('Lt', r.fields[0], r.fields[1])):
+        return ctx.m.int_binop('Sub', r.fields[1], r.fields[0])
+    return Int(0, 'usize')
+
+
+@model('Box::new_uninit')
+def _box_new_uninit(ctx, args, ck):
+    # Box<MaybeUninit<T>>: MaybeUninit { uninit: (), value: ManuallyDrop { value: MaybeDangling(T) } }
+    return BoxObj(Struct('MaybeUninit', [None, Struct('ManuallyDrop', [Struct('MaybeDangling', [None])])]))
+
+
+@model('boxed::box_assume_init_into_vec_unsafe')
+def _box_into_vec(ctx, args, ck):
+    arr = args[0].fields[0].fields[1].fields[0].fields[0]
+    if not isinstance(arr, Arr):
+        raise Unsupported('vec! lowering: unexpected box content %r' % (arr,))
+    return VecObj(list(arr.fields))
+
+
+@model('Box::assume_init')
+def _box_assume_init(ctx, args, ck):
+    return BoxObj(args[0].fields[0].fields[1].fields[0].fields[0])
